@@ -314,6 +314,7 @@ class Lowerer:
         self.stack: list = []          # functions being inlined (recursion guard)
         self.ambient: list[str] = []   # uses of ambient sources (random, time, ...)
         self.rec_fn = None             # (function, class of self) of the recursive procedure, if any
+        self.inlined: set = set()      # code objects of every function whose body was lowered into this program
         self.proc_names: set = set()   # method names lowered as separately checked procedures (`call`), not inlined
         self.procs: dict = {}          # (code, class) -> procedure ir | None (None: has to be inlined)
         self.split_mode = False        # lower each statement list once per return site of the calls it makes
@@ -478,6 +479,7 @@ class Lowerer:
         if len(self.stack) > 12:
             raise Unsupported("inlining too deep")
         node = func_ast(fn)
+        self.inlined.add(fn.__code__)
         ret_nodes = [n for n in ast.walk(node) if isinstance(n, ast.Return)]
         chosen = None
         if self.split_mode and len(ret_nodes) >= 2 and self.call_key is not None and not is_generator(fn) and \
@@ -2201,6 +2203,9 @@ def lower_all():
                         ent["result"] = st.var
                     else:
                         ent["result"] = None
+                    lost = lost_stores(lw, [ir])
+                    if lost:
+                        raise Unsupported(f"the lowering lost the attribute assignment(s) {lost} that the bytecode contains")
                     ir, taint = choose_kinds(ir, prog)
                     ent.update({"prog": ir, "taint": taint, "nvars": len(prog.varnames), "args": argvars, "self": selfv,
                                 "ambient": sorted(set(lw.ambient)), "global_reads": sorted(set(lw.global_reads)),
@@ -2489,6 +2494,32 @@ def compact(entry, procs, keep=()):
         n = max(n, len(mp))
         out.append(rename(p_, mp))
     return rename(entry, me), out, max(n, 1), me
+
+
+def bytecode_attribute_stores(codes) -> set:
+    """an independent look at the same functions: every attribute name that some STORE_ATTR / DELETE_ATTR instruction of
+    the inlined functions (their lambdas, comprehensions and nested functions included) assigns"""
+    import dis
+    out, todo, seen = set(), list(codes), set()
+    while todo:
+        c = todo.pop()
+        if c in seen:
+            continue
+        seen.add(c)
+        for ins in dis.get_instructions(c):
+            if ins.opname in ("STORE_ATTR", "DELETE_ATTR"):
+                out.add(ins.argval)
+        todo.extend(k for k in c.co_consts if isinstance(k, types.CodeType))
+    return out
+
+
+def lost_stores(lw, irs) -> list:
+    """attribute names the bytecode of the inlined functions assigns but no `store` of the program mentions"""
+    inv = {v: k for k, v in FIELDS.items()}
+    have = set()
+    for ir in irs:
+        have |= {inv.get(f, "?") for f in stores_of(ir)}
+    return sorted(bytecode_attribute_stores(lw.inlined) - have)
 
 
 def to_lean(ir) -> str:
